@@ -1,6 +1,8 @@
 #!/bin/bash
-# confirm_queue.sh <seed id>... : confirms seeds one after another (retrying once: the pinned suite has
-# load-sensitive tests); appends to /tmp/confirm_queue.log
+# confirm_queue.sh <seed id>... : confirms seeds one after another, serialised across invocations by a
+# file lock (retrying once: the pinned suite has load-sensitive tests); appends to /tmp/confirm_queue.log
+exec 9>/tmp/confirm_queue.lock
+flock 9
 for id in "$@"; do
   for try in 1 2; do
     res=$(/verif/confirm_seed.sh /verif/seeded/$id | tail -1)
